@@ -178,7 +178,7 @@ def check(prop, tier, args):
     mods = [m.__name__ for m in front.number_modules() if getters(m)]
     if args.modules:
         mods = [m for m in mods if m in args.modules]
-    units = accept.accepting_units(modules=None)
+    units = accept.accepting_units(modules=mods if args.modules else None)
     pairs = [(m, g) for m in mods for g, _ in getters(importlib.import_module(m))]
     items = [(m, sorted({n for o, n in units.get(m, []) if n != 'long'}), tier) for m in mods if m in units]
     res = accept.run_modules(_task, items, 500 if tier == 'quick' else 2500)
